@@ -293,7 +293,7 @@ func (f *fragmentList) build(in *layers.IPv4) (*layers.IPv4, error) {
 				return nil, errors.New("defrag: building - invalid fragment")
 			}
 			final = append(final, frag.Payload[startAt:]...)
-			currentOffset = currentOffset + frag.FragOffset*8
+			currentOffset = currentOffset + uint16(len(frag.Payload)) - startAt
 		} else {
 			// Houston - we have an hole !
 			debug.Printf("defrag: hole found while building, " +
